@@ -490,7 +490,11 @@ func processContractLines(cf *ContractFile, lines []string, lnos []int) error {
 				return fmt.Errorf("line %d: bad ghost call ref", no)
 			}
 			c.When, c.Callee = m[1], m[2]
-			c.CallK, _ = strconv.Atoi(m[3])
+			if m[3] == "*" {
+				c.CallK = -1 // every call of that callee
+			} else {
+				c.CallK, _ = strconv.Atoi(m[3])
+			}
 			c.Expr = strings.TrimSpace(rest[:k])
 		default:
 			return fmt.Errorf("line %d: unknown clause %q", no, word)
